@@ -287,7 +287,8 @@ func propC06(c *Ctx) {
 	for _, m := range []string{"u", "s"} {
 		for _, a := range all {
 			for _, b := range all {
-				if frac > 1 && c.Rng.Intn(frac) != 0 {
+				// a value with itself (the SAME object on both sides) is always tried
+				if frac > 1 && a != b && c.Rng.Intn(frac) != 0 {
 					continue
 				}
 				res := map[string]string{}
@@ -366,6 +367,13 @@ func propC06(c *Ctx) {
 						c.fail(Failure{Kind: "oracle", Op: fmt.Sprintf("op %s in %s %s", m, encArg(a), encArg(b)), Impl: res["in"], Note: "membership must follow list semantics (x IN [e...] iff some x = e): expected " + want})
 					}
 				}
+				// a container that is not an array is compared with the item by the container's equality: x IN c = (c = x)
+				if a.Type() != variants.Array && a.Type() != variants.Null && b.Type() != variants.Null {
+					want := safeCall(func() string { return outcome(mgrOf(m).Equal(a, b)) })
+					if res["in"] != want {
+						c.fail(Failure{Kind: "oracle", Op: fmt.Sprintf("op %s in %s %s", m, encArg(a), encArg(b)), Impl: res["in"], Note: "membership in a non-array container is the container's equality with the item: expected " + want})
+					}
+				}
 				if ok3 && ok4 && ne == eq {
 					c.fail(Failure{Kind: "oracle", Op: opl, Impl: res["equal"] + " / " + res["notEqual"], Note: "a<>b must be not a=b"})
 				}
@@ -385,6 +393,46 @@ func propC06(c *Ctx) {
 						c.fail(Failure{Kind: "oracle", Op: fmt.Sprintf("op %s pow %s %s", m, encArg(a), encArg(b)), Impl: res["pow"], Note: "'^' must be exponentiation: expected " + want})
 					}
 				}
+			}
+		}
+	}
+	// float and double arithmetic is the host's IEEE arithmetic of that type, bit for bit (signed zeros, infinities, NaN)
+	encF32 := func(f float32) string {
+		if f != f {
+			return "fNaN"
+		}
+		return fmt.Sprintf("f%08x", math.Float32bits(f))
+	}
+	for _, a := range all {
+		for _, b := range all {
+			if a.Type() != b.Type() || (a.Type() != variants.Float && a.Type() != variants.Double) {
+				continue
+			}
+			for _, name := range []string{"add", "sub", "mul", "div"} {
+				got := runOpCase(c, "u", opIndex(name), a, b)
+				want := ""
+				if a.Type() == variants.Float {
+					x, y := a.AsFloat(), b.AsFloat()
+					want = "ok " + encF32(map[string]float32{"add": x + y, "sub": x - y, "mul": x * y, "div": x / y}[name])
+				} else {
+					x, y := a.AsDouble(), b.AsDouble()
+					want = "ok " + encF64(map[string]float64{"add": x + y, "sub": x - y, "mul": x * y, "div": x / y}[name])
+				}
+				if got != want {
+					c.fail(Failure{Kind: "oracle", Op: fmt.Sprintf("op u %s %s %s", name, encArg(a), encArg(b)), Impl: got, Note: "the IEEE result of the first operand's type is " + want})
+				}
+			}
+		}
+		if a.Type() == variants.Float || a.Type() == variants.Double {
+			got := safeCall(func() string { return outcome(mgrOf("u").Negative(a)) })
+			want := ""
+			if a.Type() == variants.Float {
+				want = "ok " + encF32(-a.AsFloat())
+			} else {
+				want = "ok " + encF64(-a.AsDouble())
+			}
+			if got != want {
+				c.fail(Failure{Kind: "oracle", Op: fmt.Sprintf("op u neg %s", encArg(a)), Impl: got, Note: "the IEEE negation is " + want})
 			}
 		}
 	}
